@@ -26,7 +26,19 @@ func main() {
 	tier := flag.String("tier", "quick", "quick|thorough")
 	verif := flag.String("verif", "", "verification directory (default: parent of the binary's directory)")
 	only := flag.String("only", "", "re-decide a single obligation rule|key and print it")
+	overlayArg := flag.String("overlay", "", "analyse a variant: <file in repo>=<replacement file> (sensitivity measurements only)")
+	mutgen := flag.String("mutgen", "", "write syntactic mutants of the functions the property's rules looked at into this directory and exit (sensitivity measurements only)")
 	flag.Parse()
+	var overlay map[string][]byte
+	if *overlayArg != "" {
+		kv := strings.SplitN(*overlayArg, "=", 2)
+		data, err := os.ReadFile(kv[1])
+		if len(kv) != 2 || err != nil {
+			fmt.Fprintln(os.Stderr, "bad -overlay:", err)
+			os.Exit(2)
+		}
+		overlay = map[string][]byte{kv[0]: data}
+	}
 	if *verif == "" {
 		exe, _ := os.Executable()
 		*verif = filepath.Dir(filepath.Dir(exe))
@@ -69,7 +81,7 @@ func main() {
 	exit := 0
 	for ci, tags := range configs {
 		t0 := time.Now()
-		p, problems := loadProg(*repo, tags, nil)
+		p, problems := loadProg(*repo, tags, overlay)
 		if p == nil {
 			for _, id := range ids {
 				fmt.Printf("load failed: %v\n", problems)
@@ -106,6 +118,11 @@ func main() {
 				if ci == len(configs)-1 && *only == "" {
 					c.selftest = selfTest(*repo, *verif, id, c.violatedKeys())
 				}
+			}
+			if *mutgen != "" {
+				n, err := writeMutants(c, *mutgen)
+				fmt.Println("mutants written:", n, err)
+				continue
 			}
 			if rc := c.finish(*verif, findings, seed, tc, problems, cfgNames, *only); rc != 0 {
 				exit = 1
